@@ -42,7 +42,6 @@ type provider struct {
 	wgPublisher        sync.WaitGroup
 	wgPublisherStarted sync.WaitGroup
 	inbound            chan *mqttp.Publish
-	inRetained         chan vltypes.RetainObject
 	subIn              chan topicstypes.SubscribeReq
 	unSubIn            chan topicstypes.UnSubscribeReq
 	onCleanUnsubscribe func([]string)
@@ -65,7 +64,6 @@ func NewMemProvider(config *topicstypes.MemConfig) (topicstypes.Provider, error)
 		persist:            config.Persist,
 		onCleanUnsubscribe: config.OnCleanUnsubscribe,
 		inbound:            make(chan *mqttp.Publish, chanSize),
-		inRetained:         make(chan vltypes.RetainObject, chanSize),
 		subIn:              make(chan topicstypes.SubscribeReq, chanSize),
 		unSubIn:            make(chan topicstypes.UnSubscribeReq, chanSize),
 	}
@@ -115,14 +113,12 @@ func NewMemProvider(config *topicstypes.MemConfig) (topicstypes.Provider, error)
 	subsCount := 2
 	unSunCount := 2
 
-	p.wgPublisher.Add(publisherCount + subsCount + unSunCount + 1)
-	p.wgPublisherStarted.Add(publisherCount + subsCount + unSunCount + 1)
+	p.wgPublisher.Add(publisherCount + subsCount + unSunCount)
+	p.wgPublisherStarted.Add(publisherCount + subsCount + unSunCount)
 
 	for i := 0; i < publisherCount; i++ {
 		go p.publisher()
 	}
-
-	go p.retainer()
 
 	for i := 0; i < subsCount; i++ {
 		go p.subscriber()
@@ -186,7 +182,10 @@ func (mT *provider) Publish(m interface{}) error {
 }
 
 func (mT *provider) Retain(obj vltypes.RetainObject) error {
-	mT.inRetained <- obj
+	// stored before the call returns (the writers of the index serialise on its structure lock):
+	// handed to a worker over a queue, the message was acknowledged to its publisher while it was
+	// not retained yet, and a subscription made after that acknowledgement was not sent it
+	mT.retain(obj)
 
 	return nil
 }
@@ -202,7 +201,6 @@ func (mT *provider) Retained(filter string) ([]*mqttp.Publish, error) {
 
 func (mT *provider) Shutdown() error {
 	close(mT.inbound)
-	close(mT.inRetained)
 	close(mT.subIn)
 	close(mT.unSubIn)
 
@@ -348,15 +346,6 @@ func (mT *provider) unSubscriber() {
 		if err == nil {
 			mT.metricsSubs.OnUnsubscribe()
 		}
-	}
-}
-
-func (mT *provider) retainer() {
-	defer mT.wgPublisher.Done()
-	mT.wgPublisherStarted.Done()
-
-	for obj := range mT.inRetained {
-		mT.retain(obj)
 	}
 }
 
